@@ -138,6 +138,11 @@ func init() {
 		Decides:    "the accounting that makes a frame's line number computable: the line of an instruction is found by summing the per-line instruction counts, so every function that lengthens or shortens an instruction stream changes those counts by the same symbolic amount (7 functions, the only ones that assign to Instructions), a prepended prologue shifts the first entry by exactly its byte length, and the functions that move instructions also move every stored offset (catch entries, recorded call sites) that error handling and the stack trace consult.",
 		NotCovered: "that the frames listed are the active call chain and that the line recorded for each emitted instruction is the right source line: relations between a run and the source program.",
 	}
+	props["C14"] = &PropSpec{
+		Rules:      []string{"layout/finally-entry", "path/shortcircuit", "path/snapshot-first", "cover/offsets", "layout/prepend-bytes"},
+		Decides:    "five shape conditions of structured control flow: the distance at which the VM enters a finally block for break/continue equals the bytes the compiler emits before that entry point; the searches for an error handler and for a pending finally use the same range test on catch entries; the conditional jump of && || ?? is emitted between the operands and patched after the right one on every path; a method's defer flag survives the checking of nested closures; catch ranges move with the code when a prologue is prepended.",
+		NotCovered: "that each finally/defer runs exactly once and innermost first, and the values control-flow expressions produce: execution-order properties of the generated code over all programs.",
+	}
 	props["C15"] = &PropSpec{
 		Rules:      []string{"path/exactlyone", "cover/offsets", "layout/prepend-bytes"},
 		Decides:    "that the value (or error) of an async body reaches its awaiters exactly once: every path through the worker functions settles the promise exactly once, every settlement decrements the promise's wait group once and enqueues the continuations once, every constructor of an unsettled promise increments the wait group once; and that the prologue prepended to generator and async bodies shifts every stored offset (catch entries, recorded call sites) by its own length, without which the property's own generator example crashes.",
